@@ -251,6 +251,7 @@ def shards(tier):
     out += [("L3", i) for i in range(NCAT)]
     out += [("L3pair", i) for i in range(NCAT)]
     out += [("L3remove", i) for i in range(NCAT)]
+    out += [("optimised", 0)]
     out += [("L4", s) for s in seq_shards(spaces.SIGMA_DOC, 5 if tier == "quick" else 6)]
     out += [("big", n, v) for n in (bigdocs.SIZES_QUICK if tier == "quick" else bigdocs.SIZES_THOROUGH) for v in (0, 1)]
     return out
@@ -348,8 +349,64 @@ def check_doc(text, expected, acc, level):
     judge(text, expected, acc, level)
 
 
+_OPT_SCRIPT = """
+import sys, json
+sys.path.insert(0, sys.argv[1])
+import logging; logging.disable(logging.CRITICAL)
+import bibtexparser
+assert bibtexparser.__file__.startswith(sys.argv[1]) or True
+text = sys.stdin.read()
+out = []
+for stack in ({}, {"parse_stack": []}):
+    lib = bibtexparser.parse_string(text, **stack)
+    out.append([[type(b).__name__, getattr(b, "key", None), getattr(b, "entry_type", None), [f.key for f in getattr(b, "fields", [])]] for b in lib.blocks])
+    out.append(bibtexparser.write_string(lib))
+print(json.dumps(out))
+"""
+
+
+def check_optimised_interpreter(acc):
+    """The same library under `python -O` (assert statements stripped, __debug__ false): one interpreter start per run,
+    the whole L3 catalogue in one document, parsed with both stacks and written; compared with this process."""
+    import json
+    import subprocess
+    import sys
+
+    from .. import REPO
+
+    text = "\n".join(t for t, _ in _cat(0)) + "\n"
+    case = {"optimised_interpreter": "-O", "text": text}
+    acc.trace()
+    acc.case(nontrivial_key=("python -O",))
+
+    def observe():
+        out = []
+        for stack in ({}, {"parse_stack": []}):
+            lib = bibtexparser.parse_string(text, **stack)
+            out.append([[type(b).__name__, getattr(b, "key", None), getattr(b, "entry_type", None), [f.key for f in getattr(b, "fields", [])]] for b in lib.blocks])
+            out.append(bibtexparser.write_string(lib))
+        return out
+
+    for flags in (["-O"], ["-OO"]):
+        try:
+            r = subprocess.run([sys.executable] + flags + ["-c", _OPT_SCRIPT, REPO], input=text, capture_output=True, text=True, timeout=300)
+            got = json.loads(r.stdout) if r.returncode == 0 else ("raised", r.stderr.strip().splitlines()[-1][:200] if r.stderr.strip() else r.returncode)
+        except Exception as e:
+            acc.harness_error(f"python {flags}: {e!r}")
+            continue
+        exp = json.loads(json.dumps(observe()))
+        acc.step(("python", tuple(flags)), "parse+write", hash(repr(got)))
+        if got != exp:
+            acc.violation(
+                {"oracle": "blocks_as_written", "what": "differs under an optimised interpreter", "level": "L3", "route": "python " + " ".join(flags)},
+                {"case": dict(case, flags=flags), "observed": repr(got)[:400], "expected": repr(exp)[:400]},
+            )
+
+
 def run_shard(shard, tier, acc):
     kind = shard[0]
+    if kind == "optimised":
+        return check_optimised_interpreter(acc)
     if kind == "L1":
         for toks in seq_iter(spaces.SIGMA_VAL, shard[1]):
             v = "".join(toks)
@@ -459,6 +516,8 @@ def finish(acc, tier):
 
 
 def replay(case, acc):
+    if "optimised_interpreter" in case:
+        return check_optimised_interpreter(acc)
     text = case["text"]
     if case.get("level") == "L3remove":
         lib = bibtexparser.parse_string(text, parse_stack=[])
